@@ -113,6 +113,10 @@ MUTATIONS = [
     ("dask_expr/_util.py", "        if len(self) >= self.maxsize:\n", "        if len(self) >= self.maxsize - 1:\n", "vf.contracts.caches:LRUSetItem", "post:only-the-least-recently-used-key-is-evicted"),
     ("dask_expr/_util.py", "        cast(OrderedDict, self.data).move_to_end(key)\n        return value", "        return value", "vf.contracts.caches:LRUGetItem", "post:key-becomes-most-recently-used"),
     ("dask_expr/_util.py", "        super().__setitem__(key, value)\n\n\nclass _BackendData", "        super().__setitem__(key, value)\n        cast(OrderedDict, self.data).move_to_end(key, last=True) if False else None\n\n\nclass _BackendData", "vf.contracts.caches:LRUSetItem", "HARMLESS-OR-UNDECIDED"),
+    ("dask_expr/_shuffle.py", "    key = (other._name, npartitions, ascending, partition_size, upsample)\n", "    key = (other._name, npartitions, ascending, partition_size)\n", "vf.contracts.caches:GetDivisions", "post:result-is-compute-of-the-arguments"),
+    ("dask_expr/_shuffle.py", "    key = (other._name, npartitions, ascending, partition_size, upsample)\n", "    key = (frame._name, npartitions, ascending, partition_size, upsample)\n", "vf.contracts.caches:GetDivisions", "post:result-is-compute-of-the-arguments"),
+    ("dask_expr/_shuffle.py", "    divisions_lru[key] = result\n    return result", "    divisions_lru[other._name] = result\n    return result", "vf.contracts.caches:GetDivisions", "post:stored-under-the-key"),
+    ("dask_expr/_repartition.py", "    mem_usages_lru[frame._name] = result\n", "    mem_usages_lru[frame._name] = frame\n", "vf.contracts.caches:GetMemUsages", "UNDECIDED-OR-REFUTED"),
     # harmless edits: renamed local, reordered independent statements, extra statement
     ("dask_expr/_expr.py", "        new_divisions = []\n        for part in self._partitions:\n            new_divisions.append(full_divisions[part])\n        new_divisions.append(full_divisions[part + 1])\n        return tuple(new_divisions)", "        picked = []\n        for part in self._partitions:\n            picked.append(full_divisions[part])\n        picked.append(full_divisions[part + 1])\n        return tuple(picked)", "vf.contracts.partitions:PFDivisions", None),
     ("dask_expr/_repartition.py", "        npartitions = self.new_partitions\n        npartitions_input = self.frame.npartitions\n", "        npartitions_input = self.frame.npartitions\n        npartitions = self.new_partitions\n", "vf.contracts.repartition:FewerBoundaries", None),
